@@ -129,14 +129,19 @@ class DelayModel:
         mu = runtime
         sigma = self.degree.value * mu
 
+        rng = default_rng(self.seed)
         if self.dist == "normal":
-            s = default_rng(self.seed).normal(mu, sigma, n)
+            s = rng.normal(mu, sigma, n)
         elif self.dist == "poisson":
-            s = default_rng().poisson(mu, int(runtime / self.degree))
+            s = rng.poisson(mu, n)
         else:
-            s = default_rng().uniform()
+            s = rng.uniform(mu - sigma, mu + sigma, n)
 
         var = s[s > mu]
+        if len(var) == 0:
+            # Nothing was drawn above the runtime (e.g. a runtime of 0):
+            # there is no delay to add.
+            return runtime
         rand_var = var[int(len(var)/2)]
         return rand_var
 
